@@ -2,7 +2,7 @@
 
 Domain : conservative generated models (no damping, frictionloss, actuators, limits, contacts, fluid; joint/tendon
          polynomial springs, armature; gravity on/off), RK4, timestep refinement h, h/2, h/4 over a fixed horizon.
-Oracle : invariants + a reference: (a) sup-norm energy drift of RK4 shrinks at ~4th order (observed order in [2.8,5.5]
+Oracle : invariants + a reference: (a) sup-norm energy drift of RK4 shrinks at ~4th order (observed order >= 2.5 for hinge/slide models
          when both refinement ratios agree, i.e. in the asymptotic regime; always: drift does not grow under
          refinement); (b) gravity off, free-floating tree: linear and angular momentum (mj_subtreeVel) constant up to
          the RK4 truncation error, which also shrinks with h; (c) energy[1] == 1/2 v'Mv (engine M and reference M),
@@ -24,8 +24,10 @@ NSAMPLE = 20           # energy/momentum samples per run (sup-norm drift)
 K_E = 2e3              # energy identities vs reference, eps-scaled (worst observed ~20 eps)
 H_FD = 1e-6
 TOL_GRAD = 1e-6        # FD gradient of the potential, relative to force scale (worst observed ~1e-8)
-ORDER_LO, ORDER_HI = 2.8, 5.5      # models with hinge/slide joints only
-ORDER_LO_QUAT = 1.7                  # models with ball/free joints: the engine's RK4 is 2nd order there (reported)
+ORDER_LO, ORDER_HI = 2.5, 9.0      # models with hinge/slide joints only (upper bound: sanity only)
+MEDIAN_ORDER_LO = 3.6
+ORDER_LO_QUAT = 1.4                  # models with ball/free joints: the engine's RK4 is 2nd order there (reported)
+# dead-band tendon springs: force only C0 at the band edges -> no order asserted (orders recorded in the evidence)
 
 
 @st.composite
@@ -136,6 +138,12 @@ def main(ck):
         P[i, j] = P[j, i] = True
         j = int(par[j])
     cross = bool(np.abs(Ma * ~P).max() > 0)
+    wm = np.linalg.eigvalsh(Mr + Ma)
+    if not wm[0] > 1e-10 * wm[-1]:
+      # redundant dofs (e.g. two collinear slides, hinge+ball with one anchor): M is singular, the documentation assumes an
+      # invertible M; the dynamics are not defined. Counted, not judged.
+      ck.discard('singular-model')
+      return
     ke = float(d.energy[1])
     kscale = float(np.abs(v0) @ np.abs(M) @ np.abs(v0)) + 1e-300
     close('KE-engineM', ke, 0.5 * v0 @ M @ v0, kscale, 64 * EPS, 'energy[1] vs 1/2 v\' mj_fullM v', 'kinetic')
@@ -145,6 +153,18 @@ def main(ck):
     pe_ref_g, pe_ref_s = dyn.gravity_energy(S, k), dyn.spring_energy(S, k)
     pscale = sum(abs(float(S.body_mass[b])) * float(np.abs(S.gravity) @ np.abs(k.xipos[b])) for b in range(1, m.nbody)) + abs(pe_ref_s) + 1e-300
     close('PE-reference', float(d.energy[0]), pe_ref_g + pe_ref_s, pscale, K_E * EPS, 'energy[0] vs reference potential', 'potential-reference')
+
+    # ---------------- (b') subtree momentum vs reference at the initial state
+    lib.mj_subtreeVel(m, d)
+    vmax = np.abs(v0).max() + 1
+    for b in range(1, m.nbody):
+      mass, com, Pm, Lm = dyn.momentum(S, k, v0, b)
+      if mass < 1e-12:
+        continue
+      reach = 1 + max(np.linalg.norm(k.xipos[c] - com) for c in S.subtree(b)) + np.abs(k.xpos).max()
+      msc = mass * vmax * reach * max(1, nv)
+      close('linmom-reference', mass * np.array(d.subtree_linvel[b]), Pm, msc, K_E * EPS, 'mass*subtree_linvel[%d] vs reference' % b, 'momentum-reference')
+      close('angmom-reference', np.array(d.subtree_angmom[b]), Lm, msc * reach, K_E * EPS, 'subtree_angmom[%d] vs reference' % b, 'momentum-reference')
 
     # ---------------- (d) spring force = -grad potential (manifold central differences on the engine's energy)
     dg = lib.make_data(m)
@@ -259,11 +279,11 @@ def main(ck):
     if not carve and max(r[2] for r in res) > 2.6:
       labels.append('carved:quat-spring-near-pi')
       carve = True
-    lowreg = bool(np.any((jt == E.mjJNT_BALL) | (jt == E.mjJNT_FREE)))
+    regime = 'quat' if bool(np.any((jt == E.mjJNT_BALL) | (jt == E.mjJNT_FREE))) else 'hs'
     if m.ntendon:
       ls = np.array(m.tendon_lengthspring)
-      if np.any((ls[:, 1] > ls[:, 0]) & (np.array(m.tendon_stiffness) != 0)):
-        lowreg = True        # dead-band: force is only C0 at the band edges
+      if np.any((ls[:, 1] > ls[:, 0]) & ((np.array(m.tendon_stiffness) != 0) | np.any(np.array(m.tendon_stiffnesspoly) != 0, axis=1))):
+        regime = 'c0'        # dead-band: force is only C0 at the band edges
         labels.append('deadband-spring')
     if not carve:
       track('drift/scale@h', drift[0] / escale)
@@ -272,19 +292,19 @@ def main(ck):
         raise Violation('energy drift grows under timestep refinement: %s (scale %.3g, h=%.3g)' % (drift, escale, h), bucket='energy-refinement')
       if drift[1] > 30 * floor and drift[2] > 30 * floor:
         r1, r2 = drift[0] / drift[1], drift[1] / drift[2]
-        if max(r1, r2) / min(r1, r2) < 2.5:
+        if max(r1, r2) / min(r1, r2) < 2.5 and drift[0] < 1e-3 * escale:
           order = float(np.log2(np.sqrt(r1 * r2)))
           labels.append('order-asserted')
           sample['order'] = order
           track('order-min', -order)
-          quat = lowreg
+          quat = regime != 'hs'
           # in the asymptotic regime a resolved conservative system cannot lose/gain a visible fraction of its energy
           if drift[2] > 1e-4 * escale + floor:
             raise Violation('energy not conserved: sup|E(t)-E(0)| = %s for h, h/2, h/4 = %.3g/(1,2,4), energy scale %.3g' % (drift, h, escale),
                             bucket='energy-conservation')
-          labels.append('order:quat-model' if quat else 'order:hinge-slide-model')
-          ck.extra.setdefault('orders_quat' if quat else 'orders_hs', []).append(round(order, 2))
-          if not (ORDER_LO_QUAT if quat else ORDER_LO) <= order <= ORDER_HI:
+          labels.append('order:' + regime)
+          ck.extra.setdefault('orders_' + regime, []).append(round(order, 2))
+          if regime != 'c0' and not dict(hs=ORDER_LO, quat=ORDER_LO_QUAT)[regime] <= order <= ORDER_HI:
             raise Violation('RK4 energy drift order %.2f (ratios %.2f, %.2f; drifts %s; h=%.3g)' % (order, r1, r2, drift, h), bucket='energy-order')
         else:
           labels.append('non-asymptotic')
@@ -298,15 +318,23 @@ def main(ck):
         track('momentum-drift/scale', pdrift[2] / pscale_)
         sample['momentum_drift'] = pdrift
         labels.append('momentum-checked')
-        if pdrift[2] > 1e-6 * pscale_ + pfloor:
+        # linear momentum is preserved exactly by RK methods, angular momentum only to the order of the quaternion
+        # update (2nd): bound the fine-step drift loosely and require convergence
+        if pdrift[2] > 1e-4 * pscale_ + pfloor and drift[0] < 1e-3 * escale:
           raise Violation('momentum of free-floating tree(s) %s not conserved: sup drift %s (scale %.3g)' % (roots, pdrift, pscale_), bucket='momentum')
         if pdrift[2] > max(pdrift[0], pfloor) * 1.5 + pfloor:
           raise Violation('momentum drift grows under refinement: %s' % pdrift, bucket='momentum-refinement')
     ck.case(nontrivial=nt, key=(gm.xml, seed), sample=sample, labels=labels)
 
-  ck.run_hypothesis(test, st.tuples(model_strategy(ck.quick), mg.state_seed()), ck.budget(120, 2500), name='main')
+  ck.run_hypothesis(test, st.tuples(model_strategy(ck.quick), mg.state_seed()), ck.budget(300, 4000), name='main')
   ck.extra['worst'] = {k_: float('%.3g' % v) for k_, v in worst.items()}
-  for key in ('orders_quat', 'orders_hs'):
+  hs = ck.extra.get('orders_hs', [])
+  # aggregated evidence of the 4th order: single cases are only required to show >= 2.5 (pre-asymptotic scatter), the
+  # median over the hinge/slide models of a run was 4.1-5.0 on the unchanged tree (an order-3 scheme gives ~3.0-3.3)
+  if len(hs) >= 8 and float(np.median(hs)) < MEDIAN_ORDER_LO:
+    ck.violation('median observed RK4 energy-drift order over %d hinge/slide models is %.2f < %.1f' % (len(hs), float(np.median(hs)), MEDIAN_ORDER_LO),
+                 dict(orders=hs), bucket='energy-order-median')
+  for key in ('orders_quat', 'orders_hs', 'orders_c0'):
     orders = ck.extra.pop(key, [])
     if orders:
       ck.extra['observed_' + key] = dict(n=len(orders), min=min(orders), median=float(np.median(orders)), max=max(orders))
